@@ -81,6 +81,9 @@ class RealLease:
         self.made = []            # request ids in the order the application made them
         self.leases = []          # (n, ttl, at) of every LEASE that arrived
         self.sent_log = []        # (rid, time, index of the current lease or -1)
+        self.archived = []        # request ids sent on previous connections
+        self.dropped = set()      # request ids held back when their connection ended
+        self.first_lease = 0      # index in self.leases of the first LEASE of the current connection
 
     def request(self, rid):
         from rsocket.payload import Payload
@@ -106,7 +109,7 @@ class RealLease:
         known = set(r for r, _, _ in self.sent_log)
         for r in self.sent():
             if r not in known:
-                self.sent_log.append((r, self.clock.t, len(self.leases) - 1))
+                self.sent_log.append((r, self.clock.t, len(self.leases) - 1 if len(self.leases) > self.first_lease else -1))
 
     def lease(self, n, ttl):
         from rsocket.frame import LeaseFrame
@@ -118,22 +121,34 @@ class RealLease:
             _drive(self.client.handle_lease(f))
         self._note_sent()
 
+    def reconnect(self):
+        """what RSocketClient.connect() does, on every (re)connect, before anything can be queued on the new connection"""
+        self.archived = self.sent()
+        self.dropped |= set(self.pending())
+        self.client._reset_internals()
+        self.first_lease = len(self.leases)
+        self._note_sent()
+
     def oracle(self):
         """the clauses of C14 (the invariants of Lease.tla) evaluated on what the real requester did"""
         s, p = self.sent(), self.pending()
+        cur = set(self._rids(list(self.client._send_queue._queue)))
+        if self.dropped & cur:
+            return ('C14.no_request_before_first_lease', 'requests %s, held back when the previous connection ended, were sent on the new one' % sorted(
+                self.dropped & cur))
         if len(set(s)) != len(s) or set(s) & set(p):
             return ('C14.each_request_sent_at_most_once', 'send queue %s, held back %s' % (s, p))
         per = {}
         for (r, t, li) in self.sent_log:
             if li < 0:
-                return ('C14.no_request_before_first_lease', 'request %d entered the send queue at time %d before any LEASE arrived' % (r, t))
+                return ('C14.no_request_before_first_lease', 'request %d entered the send queue at time %d before any LEASE arrived on its connection' % (r, t))
             n, ttl, at = self.leases[li]
             if not (at <= t < at + ttl):
                 return ('C14.none_after_ttl', 'request %d entered the send queue at time %d under the lease granted at %d for %d ticks' % (r, t, at, ttl))
             per[li] = per.get(li, 0) + 1
             if per[li] > n:
                 return ('C14.count_within_grant', '%d requests were sent under the lease granted at %d for %d requests' % (per[li], at, n))
-        order = [r for r in self.made if r not in self.refused]
+        order = [r for r in self.made if r not in self.refused and r not in self.dropped]
         if s != [r for r in order if r in set(s)] or p != [r for r in order if r in set(p)] or (s and p and max(s) > min(p)):
             return ('C14.fifo_release', 'made %s; send queue %s; held back %s' % (order, s, p))
         lost = [r for r in order if r not in s and r not in p]
@@ -146,7 +161,7 @@ class RealLease:
         if self.qsize and self.refused:
             # a call may only be refused while the queue is full: checked at the moment of the call through the spec comparison
             pass
-        if p and self.leases:
+        if p and len(self.leases) > self.first_lease:
             n, ttl, at = self.leases[-1]
             used = per.get(len(self.leases) - 1, 0)
             if self.clock.t < at + ttl and used < n:
@@ -162,7 +177,7 @@ class RealLease:
         return [(f.data or b'\xff')[0] for f in frames]
 
     def sent(self):
-        return self._rids(list(self.client._send_queue._queue))
+        return self.archived + self._rids(list(self.client._send_queue._queue))
 
     def pending(self):
         return self._rids(list(self.client._request_queue._queue))
@@ -177,7 +192,7 @@ def _state(vs):
     pending = tlc.parse_value(vs['pending'])
     refused = tlc.parse_value(vs['refused'])
     return {'sent': [x[0] for x in sent], 'pending': list(pending), 'refused': set(refused), 'nextRid': int(vs['nextRid']),
-            'now': int(vs['now'])}
+            'now': int(vs['now']), 'conn': int(vs['conn']), 'dropped': set(tlc.parse_value(vs['dropped']))}
 
 
 def _apply(real, name, args, before):
@@ -188,6 +203,8 @@ def _apply(real, name, args, before):
         real.lease(g[0], g[1])
     elif name == 'Tick':
         real.tick()
+    elif name == 'Reconnect':
+        real.reconnect()
     else:
         raise common.Machinery('unknown Lease action %r' % name)
     return None
@@ -198,7 +215,7 @@ def _compare(real, exp, obs):
     if bad:
         return bad
     s, p = real.sent(), real.pending()
-    if s != exp['sent'] or p != exp['pending'] or real.refused != exp['refused']:
+    if s != exp['sent'] or p != exp['pending'] or real.refused != exp['refused'] or real.dropped != exp['dropped']:
         return ('DRIFT', 'send queue %s / held back %s / refused %s, the specification says %s / %s / %s (time %d)' % (
             s, p, sorted(real.refused), exp['sent'], exp['pending'], sorted(exp['refused']), exp['now']))
     return None
@@ -206,7 +223,7 @@ def _compare(real, exp, obs):
 
 def model_check(v, thorough):
     from concurrent.futures import ThreadPoolExecutor
-    cfgs = ['Lease.cfg', 'Lease_q2.cfg', 'Lease_f27.cfg'] + (['Lease_wide.cfg'] if thorough else [])
+    cfgs = ['Lease.cfg', 'Lease_q2.cfg', 'Lease_reconnect.cfg', 'Lease_f27.cfg'] + (['Lease_wide.cfg'] if thorough else [])
     # Lease_f27: the application acts on an interaction whose request is still held back, AS IMPLEMENTED (open finding F27 of C08):
     # NothingOvertakesItsRequest must be REFUTED - the day it holds the finding is obsolete (and the model stale)
     expect = {'Lease_f27.cfg': 'NothingOvertakesItsRequest'}
@@ -235,8 +252,10 @@ def check(v):
     saved = rsocket.lease.datetime
     try:
         model_check(v, common.tier() == 'thorough')
-        desc = lambda s: 'sent=%s pending=%s refused=%s now=%d' % (s['sent'], s['pending'], sorted(s['refused']), s['now'])
+        desc = lambda s: 'sent=%s pending=%s refused=%s now=%d reconnects=%d' % (s['sent'], s['pending'], sorted(s['refused']), s['now'], s['conn'])
         graphreplay.replay(v, 'Lease', 'Lease.cfg', RealLease, _apply, _compare, _state, prop='C14', label='lease', describe=desc)
         graphreplay.replay(v, 'Lease', 'Lease_q2.cfg', RealLeaseQ2, _apply, _compare, _state, prop='C14', label='leaseq2', describe=desc)
+        # a lease belongs to the connection it arrived on: the same, with a reconnect at every point
+        graphreplay.replay(v, 'Lease', 'Lease_reconnect.cfg', RealLease, _apply, _compare, _state, prop='C14', label='leasereconnect', describe=desc)
     finally:
         rsocket.lease.datetime = saved
